@@ -502,14 +502,15 @@ def reference(stg, ax, sig, opts, ts_eval=None, cache=None, ax_fn=None):
         excl = near.any(axis=(2, 3))
     # scale with the magnitude actually reached (time-growing custom profiles at unix-scale times exceed the nominal bound)
     amp = amplitude_bound(ax, sig)
-    tol = tolerance(ax, sig) * np.maximum(1.0, np.abs(exp) / amp)
+    tol = tolerance(ax, sig, n_smear=n_s if smear else 0) * np.maximum(1.0, np.abs(exp) / amp)
     return exp, tol, excl
 
 
-def tolerance(ax, sig):
-    """Per-pixel bound on legitimate evaluation-order differences (DESIGN 1.5)."""
+def tolerance(ax, sig, n_smear=0):
+    """Per-pixel bound on legitimate evaluation-order differences (DESIGN 1.5). Smearing may advance the centre
+    frequency incrementally: each of the n steps can add half an ulp of fmax."""
     _, lip, _ = f_callable(ax, sig['f'])
     amp = amplitude_bound(ax, sig)
     # custom / array bandpass ramps have slope |a|/span per Hz
     blip = abs(sig['bp'].get('a', 0.0)) / ax.span if sig['bp']['kind'] in ('custom', 'array') else 0.0
-    return amp * ((lip + blip) * 64 * gen.ulp(ax.fs[-1]) + 1e-9)
+    return amp * ((lip + blip) * (64 + 2 * n_smear) * gen.ulp(ax.fs[-1]) + 1e-9)
